@@ -42,7 +42,12 @@ TRUSTED = []
 
 
 def harness_specs(tier):
-    return [dict(name='h_c08', src='h_c08.cpp', flavour='fast')]
+    return [dict(name='h_c08', src='h_c08.cpp', flavour='fast'),
+            dict(name='h_c08n', src='h_c08n.cpp', flavour='fast'),
+            dict(name='h_c08r', src='h_c08r.cpp', flavour='fast'),
+            dict(name='h_c08f1', src='h_c08f.cpp', flavour='fast', extra=['-DC08F_PART=1']),
+            dict(name='h_c08f2', src='h_c08f.cpp', flavour='fast', extra=['-DC08F_PART=2']),
+            dict(name='h_c08f3', src='h_c08f.cpp', flavour='fast', extra=['-DC08F_PART=3'])]
 
 
 # ------------------------------------------------------------------------------------------------
@@ -121,7 +126,15 @@ def pred_accumulate_negative_axis(case):
     return kv.get('axis', '0').startswith('-')
 
 
-KNOWN_PREDICATES = {'accumulate_negative_axis': pred_accumulate_negative_axis}
+def pred_trace_negative_offset(case):
+    """trace with a negative diagonal offset"""
+    if case.req.split()[0] != 'trace':
+        return False
+    return _kv(case.req).get('offset', '0').startswith('-')
+
+
+KNOWN_PREDICATES = {'accumulate_negative_axis': pred_accumulate_negative_axis,
+                    'trace_negative_offset': pred_trace_negative_offset}
 
 
 # ------------------------------------------------------------------------------------------------
@@ -199,3 +212,212 @@ def gen(tier, rng):
             # negative axis: NumPy normalises it; the code does not (known finding accumulate.negative-axis) -> off-domain
             yield Case('accumulate op=f31 shape=%s axis=%d' % (fmt(s), ax - nd), 'h_c08', dom=False, oracle=ans(oshape, ores),
                        nontrivial=s[ax] > 1, tags=['accumulate', srank, 'axis=neg'])
+
+
+# ------------------------------------------------------------------------------------------------
+# library functors and named routines against NumPy
+# ------------------------------------------------------------------------------------------------
+
+NP_UFUNC = {'add': np.add, 'mul': np.multiply, 'max': np.maximum, 'min': np.minimum, 'sub': np.subtract,
+            'band': np.bitwise_and, 'bor': np.bitwise_or, 'bxor': np.bitwise_xor,
+            'land': np.logical_and, 'lor': np.logical_or}
+PY_OP = {'add': lambda a, b: a + b, 'mul': lambda a, b: a * b, 'max': lambda a, b: a if a > b else b,
+         'min': lambda a, b: a if a < b else b, 'sub': lambda a, b: a - b,
+         'band': lambda a, b: a & b, 'bor': lambda a, b: a | b, 'bxor': lambda a, b: a ^ b,
+         'land': lambda a, b: int(bool(a) and bool(b)), 'lor': lambda a, b: int(bool(a) or bool(b))}
+INIT_OF = {'add': 5, 'mul': 2, 'max': 3, 'min': -3, 'sub': 4, 'band': 15, 'bor': 64, 'bxor': 21, 'land': 1, 'lor': 0}
+
+
+def data_for(op, n, rng):
+    if op == 'mul':      # few non-unit factors: the product of everything stays far below 2^31
+        d = [rng.choice([1, 1, -1]) for _ in range(n)]
+        for k in rng.sample(range(n), min(n, 6)):
+            d[k] = rng.choice([2, 3, -2])
+        return d
+    if op in ('band', 'bor', 'bxor'):
+        return [rng.randrange(256) for _ in range(n)]
+    if op in ('land', 'lor'):
+        return [rng.randrange(2) for _ in range(n)]
+    return [rng.randint(-9, 9) for _ in range(n)]
+
+
+def numpy_reduce(op, data, shape, axes, keep, init):
+    """NumPy ufunc.reduce; subtract is not reorderable: NumPy accepts one axis only"""
+    a = np.array(data, dtype=np.int64).reshape(shape)
+    kw = {} if init is None else {'initial': init}
+    ax = None if axes is None else tuple(axes)
+    if op == 'sub' and (axes is None or len(axes) > 1):
+        if len(shape) > 1:
+            return None
+        ax = 0
+    r = np.asarray(NP_UFUNC[op].reduce(a, axis=ax, keepdims=keep, **kw))
+    return list(r.shape), [int(x) for x in r.reshape(-1)]
+
+
+def numpy_accumulate(op, data, shape, axis):
+    a = np.array(data, dtype=np.int64).reshape(shape)
+    r = np.asarray(NP_UFUNC[op].accumulate(a, axis=axis))
+    return list(r.shape), [int(x) for x in r.reshape(-1)]
+
+
+def subsets(nd):
+    for k in range(1, nd + 1):
+        for sub in itertools.combinations(range(nd), k):
+            yield list(sub)
+
+
+def gen_ufuncs(tier, rng):
+    """view::reduce / view::accumulate with the library functors (h_c08n) and the named routines (h_c08r)"""
+    R, E = (3, 3) if tier == 'quick' else (4, 3)
+    for s in shapes(R, E, min_rank=1):
+        nd, n = len(s), prod(s)
+        srank = 'rank=%d' % nd
+        for op in NP_UFUNC:
+            data = data_for(op, n, rng)
+            for sub in list(subsets(nd)) + [None]:
+                if sub is None:
+                    axes = None
+                else:
+                    axes = [k - nd if rng.random() < 0.4 else k for k in sub]
+                    rng.shuffle(axes)
+                nt = n > 1 if sub is None else any(s[k] > 1 for k in sub)
+                for keep in (0, 1):
+                    for init in (None, INIT_OF[op]):
+                        oshape, ores = ref_reduce(PY_OP[op], data, s, axes, bool(keep), init)
+                        npr = numpy_reduce(op, data, s, axes, bool(keep), init)
+                        assert npr is None or npr == (oshape, ores), (op, data, s, axes, keep, init, npr, oshape, ores)
+                        base = 'shape=%s axis=%s keepdims=%d init=%s data=%s' % (fmt(s), 'None' if axes is None else fmt(axes), keep, init, fmt(data))
+                        tags = ['ufunc-reduce', 'op=' + op, srank, 'keepdims=%d' % keep, 'init=' + ('absent' if init is None else 'present')]
+                        yield Case('reduce op=%s %s' % (op, base), 'h_c08n', oracle=ans(oshape, ores), nontrivial=nt, tags=tags)
+                        if op in ('add', 'mul', 'max', 'min'):
+                            for api in ('view', 'array'):
+                                axk = 'int' if (axes is not None and len(axes) == 1 and rng.random() < 0.5) else 'vec'
+                                yield Case('reduce op=%s api=%s ax=%s %s' % (op, api, axk, base), 'h_c08r', oracle=ans(oshape, ores), nontrivial=nt,
+                                           tags=['named-' + {'add': 'sum', 'mul': 'prod', 'max': 'amax', 'min': 'amin'}[op], 'api=' + api, srank])
+                    if op in ('add', 'mul') and axes is not None:
+                        oshape, ores = ref_reduce(PY_OP[op], data, s, axes, bool(keep), None)
+                        for dt in ('i64', 'f32', 'f64'):
+                            api = rng.choice(['view', 'array'])
+                            yield Case('reduce op=%s api=%s dtype=%s shape=%s axis=%s keepdims=%d init=None data=%s' % (
+                                op, api, dt, fmt(s), fmt(axes), keep, fmt(data)), 'h_c08r', oracle=ans(oshape, ores), nontrivial=nt,
+                                tags=['named-' + ('sum' if op == 'add' else 'prod'), 'dtype=' + dt, srank])
+            for ax in range(nd):
+                oshape, ores = ref_accumulate(PY_OP[op], data, s, ax)
+                assert (oshape, ores) == numpy_accumulate(op, data, s, ax)
+                yield Case('accumulate op=%s shape=%s axis=%d data=%s' % (op, fmt(s), ax, fmt(data)), 'h_c08n', oracle=ans(oshape, ores),
+                           nontrivial=s[ax] > 1, tags=['ufunc-accumulate', 'op=' + op, srank])
+                if op in ('add', 'mul'):
+                    for api in ('view', 'array'):
+                        for dt in ('None', 'i64', 'f64'):
+                            yield Case('accumulate op=%s api=%s dtype=%s shape=%s axis=%d data=%s' % (op, api, dt, fmt(s), ax, fmt(data)), 'h_c08r',
+                                       oracle=ans(oshape, ores), nontrivial=s[ax] > 1,
+                                       tags=['named-' + ('cumsum' if op == 'add' else 'cumprod'), 'api=' + api, 'dtype=' + dt, srank])
+                    # negative axis through cumsum / cumprod: known finding accumulate.negative-axis
+                    yield Case('accumulate op=%s api=view dtype=None shape=%s axis=%d data=%s' % (op, fmt(s), ax - nd, fmt(data)), 'h_c08r',
+                               dom=False, oracle=ans(oshape, ores), nontrivial=s[ax] > 1,
+                               tags=['named-' + ('cumsum' if op == 'add' else 'cumprod'), 'axis=neg', srank])
+
+
+# ------------------------------------------------------------------------------------------------
+# float routines: NumPy under a tolerance; float fold order exactly
+# ------------------------------------------------------------------------------------------------
+
+def parse_ans(a):
+    if a is None or not a.startswith('ok shape='):
+        return None
+    try:
+        sh, da = a[3:].split(' ')
+        shape = [] if sh == 'shape=[]' else [int(x) for x in sh[6:].split(',')]
+        data = [] if da == 'data=[]' else [float(x) for x in da[5:].split(',')]
+        return shape, data
+    except Exception:
+        return None
+
+
+def close_cmp(rtol, atol):
+    def cmp(a, b):
+        pa, pb = parse_ans(a), parse_ans(b)
+        if pa is None or pb is None:
+            return a == b
+        return pa[0] == pb[0] and len(pa[1]) == len(pb[1]) and bool(np.allclose(pa[1], pb[1], rtol=rtol, atol=atol, equal_nan=True))
+    return cmp
+
+
+def fans(r):
+    r = np.asarray(r, dtype=np.float64)
+    return 'ok shape=%s data=%s' % (fmt(r.shape), ','.join(repr(float(x)) for x in r.reshape(-1)) if r.size else '[]')
+
+
+def gen_float(tier, rng):
+    R, E = (3, 3) if tier == 'quick' else (4, 3)
+    for s in shapes(R, E, min_rank=1):
+        nd, n = len(s), prod(s)
+        srank = 'rank=%d' % nd
+        data = [rng.randint(-6, 6) for _ in range(n)]
+        a = np.array(data, dtype=np.float64).reshape(s)
+        for sub in list(subsets(nd)) + [None]:
+            if sub is None:
+                axes, count = None, n
+            else:
+                axes = [k - nd if rng.random() < 0.4 else k for k in sub]
+                rng.shuffle(axes)
+                count = prod([s[k] for k in sub])
+            ax = None if axes is None else tuple(axes)
+            nt = count > 1
+            axs = 'None' if axes is None else fmt(axes)
+            for keep in (0, 1):
+                for api in ('view', 'array'):
+                    for et in ('f64', 'i32'):
+                        axk = 'int' if (axes is not None and len(axes) == 1 and rng.random() < 0.5) else 'vec'
+                        base = 'api=%s et=%s ax=%s shape=%s axis=%s keepdims=%d data=%s' % (api, et, axk, fmt(s), axs, keep, fmt(data))
+                        tol = close_cmp(1e-9, 1e-12) if et == 'f64' else close_cmp(2e-5, 1e-6)
+                        tg = ['api=' + api, 'et=' + et, srank, 'keepdims=%d' % keep]
+                        yield Case('mean ' + base, 'h_c08f1', model=False, oracle=fans(np.mean(a, axis=ax, keepdims=bool(keep))), cmp=tol,
+                                   nontrivial=nt, tags=['mean'] + tg)
+                        for ddof in (0, 1):
+                            if count - ddof <= 0:
+                                continue
+                            yield Case('var ddof=%d %s' % (ddof, base), 'h_c08f1', model=False, cmp=tol, nontrivial=nt, tags=['var', 'ddof=%d' % ddof] + tg,
+                                       oracle=fans(np.var(a, axis=ax, ddof=ddof, keepdims=bool(keep))))
+                            yield Case('stddev ddof=%d %s' % (ddof, base), 'h_c08f2', model=False, cmp=tol, nontrivial=nt, tags=['stddev', 'ddof=%d' % ddof] + tg,
+                                       oracle=fans(np.std(a, axis=ax, ddof=ddof, keepdims=bool(keep))))
+                    for ord_ in (1, 2, 3):
+                        axk = 'int' if (axes is not None and len(axes) == 1 and rng.random() < 0.5) else 'vec'
+                        yield Case('vector_norm api=%s et=f64 ax=%s ord=%d shape=%s axis=%s keepdims=%d data=%s' % (api, axk, ord_, fmt(s), axs, keep, fmt(data)),
+                                   'h_c08f3', model=False, cmp=close_cmp(1e-5, 1e-7), nontrivial=nt, tags=['vector_norm', 'ord=%d' % ord_, 'api=' + api, srank],
+                                   oracle=fans(np.linalg.vector_norm(a, axis=ax, keepdims=bool(keep), ord=ord_)))
+        # trace: every ordered pair of distinct axes, every offset with a non-empty diagonal
+        if nd >= 2:
+            for a1, a2 in itertools.permutations(range(nd), 2):
+                for off in range(-s[a1] + 1, s[a2]):
+                    for api in ('view', 'array'):
+                        et = rng.choice(['f64', 'i32'])
+                        req = 'trace api=%s et=%s shape=%s offset=%d axis1=%d axis2=%d data=%s' % (api, et, fmt(s), off, a1, a2, fmt(data))
+                        # negative offset: known finding trace.negative-offset (index::diagonal) -> off-domain
+                        yield Case(req, 'h_c08f3', model=False, dom=off >= 0, cmp=close_cmp(1e-12, 1e-12), nontrivial=min(s[a1], s[a2]) > 1,
+                                   oracle=fans(np.trace(a, offset=off, axis1=a1, axis2=a2)), tags=['trace', 'api=' + api, srank, 'offset<0' if off < 0 else 'offset>=0'])
+    # float fold order: the sum of (1e16, 1, -1e16, …) depends on the order; the reference is the sequential left fold in IEEE double
+    vals = [1e16, 1.0, -1e16, 3.0, 1e16, -1e16, 0.5]
+    nord = 60 if tier == 'quick' else 400
+    for t in range(nord):
+        nd = rng.randint(1, 3)
+        s = [rng.randint(1, 4) for _ in range(nd)]
+        n = prod(s)
+        data = [rng.choice(vals) for _ in range(n)]
+        sub = rng.choice(list(subsets(nd)) + [None])
+        axes = None if sub is None else list(sub)
+        keep = rng.randint(0, 1)
+        oshape, ores = ref_reduce(lambda x, y: x + y, data, s, axes, bool(keep), None)
+        api = rng.choice(['view', 'array'])
+        yield Case('fsum api=%s et=f64 shape=%s axis=%s keepdims=%d data=%s' % (api, fmt(s), 'None' if axes is None else fmt(axes), keep,
+                   ','.join(repr(x) for x in data)), 'h_c08f3', model=False, cmp=close_cmp(0.0, 0.0),
+                   oracle='ok shape=%s data=%s' % (fmt(oshape), ','.join(repr(float(x)) for x in ores)), tags=['float-fold-order', 'api=' + api])
+
+
+_gen_f31 = gen
+
+
+def gen(tier, rng):
+    yield from _gen_f31(tier, rng)
+    yield from gen_ufuncs(tier, rng)
+    yield from gen_float(tier, rng)
